@@ -23,6 +23,8 @@ Again == /\ hist # << >>
             \/ \E c \in 0..NCalls(o) : (c = 0 \/ Len(hist) = 1) /\ DoRun(o, c)          \* resume / identical re-run
             \/ (~hist[Len(hist)].snap.crashed /\ DoRun([o EXCEPT !.owp = TRUE], 0))       \* overwrite predictions
             \/ (~hist[Len(hist)].snap.crashed /\ ~o.pot /\ DoRun([o EXCEPT !.pot = TRUE], 0))   \* now also the train part
+            \/ (~hist[Len(hist)].snap.crashed /\ ~o.sf /\ \E c \in {0, 3} : DoRun([o EXCEPT !.sf = TRUE], c))  \* now also save the fitted strategies
+            \/ (~hist[Len(hist)].snap.crashed /\ o.sf /\ DoRun([o EXCEPT !.owf = TRUE], 0))     \* re-save the fitted strategies
 Next == First \/ Again
 Spec == Init /\ [][Next]_vars
 
